@@ -20,6 +20,7 @@ vars == <<order, cst, trk, hist>>
 \* "kinds" : incremental analysis over every constituent kind (functions, calls, axioms, structures, ill-typed, unparsable, dangling)
 \* "texts" : resolved terms and definition texts (C07, last clause): X1, D1, D2 are created by script, then chains of references
 \*           between terms and texts are built, re-pointed, renamed and broken
+\* "proj"  : definitions that differ only in the index of a projection (X1, D1 := X1 x B(X1), D2 := Pr1(D1) by script)
 \* "names" : renaming (C08): aliases that are prefixes of each other, chains and mentions in definitions, conventions, references
 OpSet == CASE Preset = "ids" -> {"Emplace", "InsertCopy", "Erase", "SetAlias", "MoveBefore", "ResetAliases", "Track", "StopTracking", "SetExpression", "SaveLoad"}
            [] Preset = "dups" -> {"Emplace", "Track", "DeleteDuplicates", "Erase", "SetAlias", "SetConvention"}
@@ -28,6 +29,7 @@ OpSet == CASE Preset = "ids" -> {"Emplace", "InsertCopy", "Erase", "SetAlias", "
            [] Preset = "names" -> {"Emplace", "SetAlias", "ResetAliases", "SetConvention", "SetTerm", "SetText", "InsertCopy", "Erase"}
            [] Preset = "ops" -> {"Emplace", "Erase"}
            [] Preset = "texts" -> {"Emplace", "SetTerm", "SetText", "SetAlias", "Erase"}
+           [] Preset = "proj" -> {"Emplace", "SetExpression", "Erase"}
 UidPool == 1..(MaxCst + 1)
 EmplaceKinds == CASE Preset = "ids" -> {"base", "constant", "structured", "term", "axiom"}
                   [] Preset = "deps" -> {"base", "term"}
@@ -36,6 +38,7 @@ EmplaceKinds == CASE Preset = "ids" -> {"base", "constant", "structured", "term"
                   [] Preset = "names" -> {"base", "term"}
                   [] Preset = "ops" -> {"base", "term", "axiom"}
                   [] Preset = "texts" -> {"base", "term"}
+                  [] Preset = "proj" -> {"base", "term"}
 \* definitions offered when a constituent of kind k is created
 KindDefs(k) == CASE Preset = "ids" -> {1, 2}
                  [] Preset = "dups" -> IF k = "base" THEN {1} ELSE {2, 5}
@@ -44,9 +47,10 @@ KindDefs(k) == CASE Preset = "ids" -> {1, 2}
                                           [] k = "function" -> {12} [] k = "axiom" -> {14, 15})
                  [] Preset = "names" -> IF k = "base" THEN {1} ELSE {5, 16, 19}
                  [] Preset = "texts" -> IF k = "base" THEN {1} ELSE {2}
+                 [] Preset = "proj" -> IF k = "base" THEN {1} ELSE IF Len(hist) = 1 THEN {25} ELSE {26}
                  [] Preset = "ops" -> (CASE k = "base" -> {1} [] k = "term" -> {2, 5, 6, 10, 20, 21} [] k = "axiom" -> {15})
 \* definitions offered to SetExpression
-EditDefs == CASE Preset = "ids" -> {1, 2} [] Preset = "dups" -> {} [] Preset = "deps" -> {2, 5, 6, 7, 8, 17} [] Preset = "kinds" -> {1, 2, 5, 10, 12, 13, 14, 16, 22} [] Preset = "names" -> {} [] Preset = "ops" -> {} [] Preset = "texts" -> {}
+EditDefs == CASE Preset = "ids" -> {1, 2} [] Preset = "dups" -> {} [] Preset = "deps" -> {2, 5, 6, 7, 8, 17} [] Preset = "kinds" -> {1, 2, 5, 10, 12, 13, 14, 16, 22} [] Preset = "names" -> {} [] Preset = "ops" -> {} [] Preset = "texts" -> {} [] Preset = "proj" -> {25, 26, 27, 28}
 AliasPool == CASE Preset = "ids" -> {"X1", "X2", "D1", "Q7"} [] Preset = "dups" -> {"D3"} [] Preset = "kinds" -> {"D1", "D2", "X2"} [] Preset = "names" -> {"X1", "X11", "X2", "D1", "D11", "D2"} [] Preset = "texts" -> {"X2", "D3"} [] OTHER -> {}
 RecUids == {1, 2}
 RecAliases == IF Preset = "names" THEN {"X1", "D1", "X11"} ELSE {"X1", "D1", "Q7"}
@@ -78,7 +82,11 @@ DefPool == <<
   Node("UNION", <<G1("D3"), G1("D2")>>),                                  \* 21 depends on later terms
   Node("BOOLEAN", <<G1("X1")>>),                                          \* 22 a property (power set), not a value
   Node("CARD", <<G1("D1")>>),                                             \* 23 needs a value: improper when D1 is a property
-  Call("F1", <<G1("D1")>>)                                                \* 24 call whose argument may be a property
+  Call("F1", <<G1("D1")>>),                                               \* 24 call whose argument may be a property
+  Node("DECART", <<G1("X1"), Node("BOOLEAN", <<G1("X1")>>)>>),            \* 25 X1 x B(X1)
+  Idx("BIGPR", <<1>>, <<G1("D1")>>),                                      \* 26 Pr1(D1)
+  Idx("BIGPR", <<2>>, <<G1("D1")>>),                                      \* 27 Pr2(D1): differs from 26 only in the index, another typification
+  Idx("BIGPR", <<2, 1>>, <<G1("D1")>>)                                    \* 28 Pr2,1(D1)
 >>
 Words == <<"note", "X1", "D1">>                       \* conventions: plain word, and words that are aliases
 \* a plain "word" may itself be reference syntax the model does not interpret: a collaboration reference stays as it is
@@ -87,8 +95,8 @@ AtomsPool == {<<>>, <<[r |-> TRUE, s |-> "X1"], [r |-> FALSE, s |-> "X1"], [r |-
 TermPoolT == {<<[r |-> FALSE, s |-> "word"]>>, <<[r |-> TRUE, s |-> "X1"]>>, <<[r |-> TRUE, s |-> "D1"], [r |-> FALSE, s |-> "of"]>>}
 TextPoolT == {<<[r |-> TRUE, s |-> "D1"]>>, <<[r |-> FALSE, s |-> "see"], [r |-> TRUE, s |-> "D2"], [r |-> TRUE, s |-> "X1"]>>}
 \* the scripted prefix of "texts": base set, term, term (then no further Emplace)
-Scripted(k) == Preset # "texts" \/ (Len(hist) < 3 /\ k = (IF Len(hist) = 0 THEN "base" ELSE "term"))
-Free == Preset # "texts" \/ Len(hist) >= 3
+Scripted(k) == Preset \notin {"texts", "proj"} \/ (Len(hist) < 3 /\ k = (IF Len(hist) = 0 THEN "base" ELSE "term"))
+Free == Preset \notin {"texts", "proj"} \/ Len(hist) >= 3
 ConvPool == {<<>>, <<"X1", "note", "D1", "X11", "x1">>}
 RecPool == {[uid |-> u, alias |-> a, kind |-> k, def |-> DefPool[d], conv |-> <<"X1">>, term |-> <<[r |-> TRUE, s |-> a]>>, text |-> <<>>] :
                u \in RecUids, a \in RecAliases, k \in {"base", "term"}, d \in RecDefs}
@@ -112,7 +120,7 @@ Next ==
                      !.rec = <<[uid |-> r.uid, alias |-> r.alias, kind |-> r.kind, d |-> Toks(r.def), conv |-> r.conv, term |-> r.term, text |-> r.text]>>])
      \/ /\ "Erase" \in OpSet /\ Free /\ \E u \in (IF Preset = "ops" THEN Ids ELSE UidPool) : Step(Erase(u), [Op("Erase") EXCEPT !.u = u])
      \/ /\ "SetAlias" \in OpSet /\ Free /\ \E u \in Ids, a \in AliasPool, b \in (IF Preset = "texts" THEN {TRUE} ELSE BOOLEAN) : Step(SetAlias(u, a, b), [Op("SetAlias") EXCEPT !.u = u, !.a = a, !.b = b])
-     \/ /\ "SetExpression" \in OpSet /\ \E u \in Ids, i \in EditDefs :
+     \/ /\ "SetExpression" \in OpSet /\ Free /\ \E u \in Ids, i \in EditDefs :
               Step(SetExpression(u, DefPool[i]), [Op("SetExpression") EXCEPT !.u = u, !.d = Toks(DefPool[i]), !.hasdef = (DefPool[i] # NoDef)])
      \/ /\ "SetConvention" \in OpSet /\ \E u \in Ids, q \in ConvPool : Step(SetConvention(u, q), [Op("SetConvention") EXCEPT !.u = u, !.w = q])
      \/ /\ "SetTerm" \in OpSet /\ Free /\ \E u \in Ids, q \in (IF Preset = "texts" THEN TermPoolT ELSE AtomsPool) : Step(SetTerm(u, q), [Op("SetTerm") EXCEPT !.u = u, !.q = q])
